@@ -540,13 +540,6 @@ let rec map f = function
 | [] -> []
 | a :: t -> (f a) :: (map f t)
 
-(** val fold_left : ('a1 -> 'a2 -> 'a1) -> 'a2 list -> 'a1 -> 'a1 **)
-
-let rec fold_left f l a0 =
-  match l with
-  | [] -> a0
-  | b :: t -> fold_left f t (f a0 b)
-
 (** val forallb : ('a1 -> bool) -> 'a1 list -> bool **)
 
 let rec forallb f = function
@@ -2818,33 +2811,43 @@ let boundary_after = function
 | [] -> true
 | c::_ -> negb (is_word c)
 
-(** val replace_word_aux :
-    char list -> char list -> nat -> bool -> char list -> char list **)
+(** val match_name :
+    (char list * char list) list -> char list -> (char list * nat) option **)
 
-let rec replace_word_aux w d skip prev_word s = match s with
+let rec match_name repl s =
+  match repl with
+  | [] -> None
+  | p :: more ->
+    let (w, d) = p in
+    (match starts_with w s with
+     | Some rest ->
+       if boundary_after rest
+       then Some (d, (length0 w))
+       else match_name more s
+     | None -> match_name more s)
+
+(** val replace_words_aux :
+    (char list * char list) list -> nat -> bool -> char list -> char list **)
+
+let rec replace_words_aux repl skip prev_word s = match s with
 | [] -> []
 | c::r ->
   (match skip with
    | O ->
-     (match if prev_word then None else starts_with w s with
-      | Some rest ->
-        if boundary_after rest
-        then append d
-               (replace_word_aux w d (sub (length0 w) (S O)) (is_word c) r)
-        else c::(replace_word_aux w d O (is_word c) r)
-      | None -> c::(replace_word_aux w d O (is_word c) r))
-   | S k -> replace_word_aux w d k (is_word c) r)
-
-(** val replace_word : char list -> char list -> char list -> char list **)
-
-let replace_word w d s =
-  replace_word_aux w d O false s
+     (match if prev_word then None else match_name repl s with
+      | Some p ->
+        let (d, n0) = p in
+        append d (replace_words_aux repl (sub n0 (S O)) (is_word c) r)
+      | None -> c::(replace_words_aux repl O (is_word c) r))
+   | S k -> replace_words_aux repl k (is_word c) r)
 
 (** val subst_line :
     (char list * char list) list -> char list -> char list **)
 
 let subst_line repl line =
-  fold_left (fun l sd -> replace_word (fst sd) (snd sd) l) repl line
+  match repl with
+  | [] -> line
+  | _ :: _ -> replace_words_aux repl O false line
 
 type backend =
 | Atlas
